@@ -16,6 +16,7 @@ import (
 	"encoding/hex"
 	stdjson "encoding/json"
 	"fmt"
+	"math"
 	"reflect"
 	"strconv"
 	"strings"
@@ -693,10 +694,77 @@ func c19Vector(c *Ctx, raw stdjson.RawMessage) {
 func c19Replay(c *Ctx, raw stdjson.RawMessage) {
 	var k c19Case
 	if stdjson.Unmarshal(raw, &k) == nil {
+		if strings.HasPrefix(k.Mode, "literal:") {
+			c19Literals(c)
+			return
+		}
 		c19Run(c, k)
 	}
 }
 
+// c19Literals: templates written by hand, with number literals no formatter would produce: the value a template sets a
+// field to is the value its JSON text denotes for the type of the field (one rounding, to that type)
+type c19Lit struct {
+	F float32 `protobuf:"fixed32,1,opt,name=f"`
+	D float64 `protobuf:"fixed64,2,opt,name=d"`
+	I int64   `protobuf:"varint,3,opt,name=i"`
+	U uint32  `protobuf:"varint,4,opt,name=u"`
+	S string  `protobuf:"bytes,5,opt,name=s"`
+	N *c19Lit `protobuf:"bytes,6,opt,name=n"`
+}
+
+func c19Literals(c *Ctx) {
+	floats := []string{"1.0000000596046448", "1.000000059604644775390625000000001", "1.00000005960464477539062500001", "1.000000059604644775390625",
+		"16777217", "16777217.0000000000001", "0.1", "3.4028235e38", "1e-45", "7.006492321624086e-46", "-1.5e10", "1e2", "100", "0.25", "3.1415927"}
+	for _, lit := range floats {
+		for _, nested := range []bool{false, true} {
+			k := c19Case{Mode: "literal:" + lit}
+			tmpl := `{"f": ` + lit + `, "d": ` + lit + `}`
+			if nested {
+				tmpl = `{"n": ` + tmpl + `}`
+			}
+			f64, _ := strconv.ParseFloat(lit, 64)
+			f32, _ := strconv.ParseFloat(lit, 32)
+			fail := func(api, w, g string) { c.Diverge("C19", api, w, g, "", k) }
+			var rw proto.Rewriter
+			var err error
+			c.Case()
+			c.Eval(1)
+			if p := protect(func() { rw, err = proto.ParseRewriteTemplate(proto.TypeOf(reflect.TypeOf(c19Lit{})), []byte(tmpl)) }); p != "" || err != nil {
+				fail("proto.ParseRewriteTemplate(number literal)", "a Rewriter", fmt.Sprintf("%v %s template=%s", err, p, tmpl))
+				continue
+			}
+			for _, in := range []c19Lit{{}, {F: 9, D: 9, I: -1, U: 7, S: "keep", N: &c19Lit{F: 8, S: "inner"}}} {
+				b, _ := proto.Marshal(in)
+				var out []byte
+				if p := protect(func() { out, err = rw.Rewrite(nil, b) }); p != "" || err != nil {
+					fail("Rewriter.Rewrite(number literal)", "a message", fmt.Sprintf("%v %s", err, p))
+					continue
+				}
+				var got c19Lit
+				if e := proto.Unmarshal(out, &got); e != nil {
+					fail("Unmarshal(Rewrite(in))", "a valid message", e.Error()+" out="+hex.EncodeToString(out))
+					continue
+				}
+				tgt := &got
+				if nested {
+					tgt = got.N
+				}
+				if tgt == nil || math.Float32bits(tgt.F) != math.Float32bits(float32(f32)) || math.Float64bits(tgt.D) != math.Float64bits(f64) {
+					g := "nil"
+					if tgt != nil {
+						g = fmt.Sprintf("f=%v (%#x) d=%v", tgt.F, math.Float32bits(tgt.F), tgt.D)
+					}
+					fail("Unmarshal(Rewrite(in))(template with a number literal)", fmt.Sprintf("f=%v (%#x) d=%v for %s", float32(f32), math.Float32bits(float32(f32)), f64, lit), g)
+				}
+				if got.I != in.I || got.U != in.U || got.S != in.S {
+					fail("Rewriter.Rewrite(untouched fields)", fmt.Sprintf("%+v", in), fmt.Sprintf("%+v", got))
+				}
+			}
+		}
+	}
+}
+
 func init() {
-	register("C19", &Driver{Vector: c19Vector, Replay: c19Replay})
+	register("C19", &Driver{Vector: c19Vector, Replay: c19Replay, Extra: c19Literals})
 }
